@@ -1329,7 +1329,10 @@ XPathProcessorImpl::UnaryExpr()
 
     if(tokenIs(XalanUnicode::charHyphenMinus) == true)
     {
-        nextToken();
+        if (nextToken() == false)
+        {
+            error(XalanMessages::ExpectedToken);
+        }
 
         m_expression->insertOpCode(XPathExpression::eOP_NEG,
                                    opPos);
@@ -1337,12 +1340,17 @@ XPathProcessorImpl::UnaryExpr()
         isNeg = true;
     }
 
-    UnionExpr();
-
     if(isNeg == true)
     {
+        // UnaryExpr ::= UnionExpr | '-' UnaryExpr
+        UnaryExpr();
+
         m_expression->updateOpCodeLength(XPathExpression::eOP_NEG,
                                          opPos);
+    }
+    else
+    {
+        UnionExpr();
     }
 }
   
